@@ -41,7 +41,7 @@ def fn(a, tier):
     nt = 1 + pick(a["ntask"], ntmax)
     site, nested = pick(a["site"], 3), pick(a["nested"], 2)
     apis = [pick(a[f"api{i}"], 2) for i in range(nt)]
-    outs = [pick(a[f"out{i}"], 9 if (i == 0 or tier != "quick") else 3) for i in range(nt)]
+    outs = [pick(a[f"out{i}"], 9 if i == 0 else (3 if tier == "quick" else 5)) for i in range(nt)]
     handler_kind = pick(a["handler"], 4) if (2 in outs or 8 in outs) else 0
     fstart = pick(a["fstart"], 2)  # 1: factory started through the owner's METHOD while another (nested, short-lived) context is current
     tape = DeviationTape([(a[f"gap{j}"], a[f"arm{j}"]) for j in range(D)], L)
@@ -294,7 +294,7 @@ H = Harness(
     title="tasks spawned through a TaskFactory from different sites, with every outcome, handler verdict and owner teardown while tasks run",
     bound_text=lambda tier: f"1-2 tasks x {{start_task, start_task_soon}} x outcome{{" + "; ".join(OUTCOMES) + "} x spawned from {"
     + "; ".join(SITES) + "} x " + "/".join(HANDLERS) + " x owner root-level/nested x factory started by the shortcut / by the owner's method from inside another nested context; every task has an async teardown callback in its own context; observer after EVERY scheduler step; late spawns after teardown; FIFO with "
-    + ("one deviation within 5 decisions; the second task only returns / keeps running / raises" if tier == "quick" else "two deviations (each within 5 decisions), all outcomes for both tasks"),
+    + ("one deviation within 5 decisions; the second task only returns / keeps running / raises" if tier == "quick" else "two deviations (each within 5 decisions); the second task has one of the first five outcomes"),
     oracle="task context's parent chain = factory context -> owner, never the spawner's; tasks see exactly the resources present when the factory "
     "started; at every scheduler step: running tasks are in all_task_handles(), tasks whose wait_finished() returned are not, no foreign handles; "
     "wait_finished() returns for every outcome and only after the task's own context has been torn down; cancel() affects only its task; leaving the owner waits for running tasks (none sees a "
